@@ -13,6 +13,7 @@
 #include <sched.h>
 #include <time.h>
 #include <sys/mman.h>
+#include <sys/time.h>
 #include <stdint.h>
 
 void vp_write(const char* buf, size_t n)
@@ -118,6 +119,7 @@ static void install(void)
     sigaction(SIGBUS, &sa, NULL);
     sigaction(SIGFPE, &sa, NULL);
     sigaction(SIGILL, &sa, NULL);
+    sigaction(SIGVTALRM, &sa, NULL);     /* CPU-time watchdog of vp_try: a call that spins is reported, not waited for */
 }
 
 int vp_try(void (*fn)(void*), void* arg)
@@ -126,12 +128,18 @@ int vp_try(void (*fn)(void*), void* arg)
     sigjmp_buf* prev = cur_jmp;
     install();
     int sig = sigsetjmp(jb, 1);
+    struct itimerval it, off;
+    memset(&it, 0, sizeof it); memset(&off, 0, sizeof off);
+    it.it_value.tv_sec = 5;                      /* CPU seconds (ITIMER_VIRTUAL), far above any legitimate call */
     if (sig == 0) {
         cur_jmp = &jb; in_try = 1;
+        if (!prev) setitimer(ITIMER_VIRTUAL, &it, NULL);
         fn(arg);
+        if (!prev) setitimer(ITIMER_VIRTUAL, &off, NULL);
         in_try = prev != NULL; cur_jmp = prev;
         return 0;
     }
+    if (!prev) setitimer(ITIMER_VIRTUAL, &off, NULL);
     in_try = prev != NULL; cur_jmp = prev;
     return sig;
 }
